@@ -305,6 +305,11 @@ pub fn build_from(l: &Layout, gf: Vec<GenField>, local: &mut Local, shape: &str)
             }
             Canon::NotFixpoint => {
                 local.count(&format!("exemplar-not-fixpoint:{}", f.tag), 1);
+                local.violation(
+                    format!("C03|field|not-a-fixed-point|{}", f.tag),
+                    format!("field {}: the library's own serialisation of a content in the documented format comes back under another tag, is not accepted again or serialises differently the second time", f.tag),
+                    || json!({"tag": f.tag, "content": f.content}),
+                );
                 return None;
             }
             Canon::Panic => return None,
@@ -364,7 +369,7 @@ pub fn run(cfg: &Config) -> i32 {
             let Some(spec) = specs.iter().find(|s| s.ty == format!("Field{}", f.tag) || s.ty == format!("Field{}NoOption", f.tag)) else { continue };
             let mut rr = Rng::new(0, "c03-subst-cand", fi as u64);
             for c in crate::spec::fieldfmt::candidates(spec, 1, &mut rr, 0) {
-                let structural = matches!(c.class.as_str(), "minimal" | "maximal") || c.class.starts_with("len=min") || c.class.starts_with("len=max,") || c.class == "len=max" || c.class.starts_with("zero=") || c.class.starts_with("date=");
+                let structural = matches!(c.class.as_str(), "minimal" | "maximal") || c.class.starts_with("len=min") || c.class.starts_with("len=max,") || c.class == "len=max" || c.class.starts_with("zero=") || c.class.starts_with("date=") || c.class.starts_with("ccy=");
                 if !structural || c.content.contains('\r') || c.content.lines().any(|x| x.starts_with(':') || x.starts_with('-')) {
                     continue;
                 }
